@@ -129,27 +129,35 @@ def mwBatchUpdate [Add F] [Sub F] [Mul F] [Zero F] [One F] [Inv F] [DecidableEq 
   | some δ => mwApply C δ
   | none => C
 
+/-- ∏ d_A(y) over the epochs of a multi-batch call -/
+def prodA [Sub F] [Mul F] [One F] (y : F) : List (List F × List F × List G) → F
+  | [] => 1
+  | t :: r => dad y t.1 * prodA y r
+
+/-- ∏ d_D(y) over the epochs -/
+def prodD [Sub F] [Mul F] [One F] (y : F) : List (List F × List F × List G) → F
+  | [] => 1
+  | t :: r => dad y t.2.1 * prodD y r
+
+/-- the summed coefficient polynomial of `evaluate_deltas`: epoch `i` contributes its coefficients
+scaled by `(∏_{k>i} d_A,k(y)) · (∏_{h<i} d_D,h(y))`; `pre` carries the product over the earlier
+epochs. (The Rust loop computes the two products by index with `take` / `skip` and adds the epochs
+left to right; this is the same sum written by recursion on the list — the correspondence stream
+`vb.mwmulti` / `vb.nmmulti` compares it with the real code for every contiguous grouping.) -/
+def deltasPoly [Sub F] [Mul F] [One F] [Add G] [SMul F G] (y : F) : F → List (List F × List F × List G) → List G
+  | _, [] => []
+  | pre, t :: r => polyAddG (t.2.2.map ((prodA y r * pre) • ·)) (deltasPoly y (pre * dad y t.2.1) r)
+
 /-- `evaluate_deltas` over a list of (additions, deletions, coefficients) -/
 def evaluateDeltas [Add F] [Sub F] [Mul F] [Zero F] [One F] [Inv F] [DecidableEq F]
     [Add G] [Zero G] [SMul F G]
     (y : F) (deltas : List (List F × List F × List G)) : Option (Delta F G) :=
-  let aa := deltas.map fun t => dad y t.1
-  let dd := deltas.map fun t => dad y t.2.1
-  let accA := aa.foldl (· * ·) 1
-  let accD := dd.foldl (· * ·) 1
+  let accD := prodD y deltas
   if accD = 0 then none
   else
     let accDi := accD⁻¹
-    let n := deltas.length
-    let poly : List G := (List.range n).foldl (fun poly i =>
-      let ddh := (dd.take i).foldl (· * ·) 1
-      let dak := ((aa.take n).drop (i + 1)).foldl (· * ·) 1
-      let k := dak * ddh
-      match deltas[i]? with
-      | some t => polyAddG poly (t.2.2.map (k • ·))
-      | none => poly) []
-    match polyEvalG poly y with
-    | some v => some ⟨accA * accDi, accDi • v⟩
+    match polyEvalG (deltasPoly y 1 deltas) y with
+    | some v => some ⟨prodA y deltas * accDi, accDi • v⟩
     | none => none
 
 def mwMultiBatchUpdate [Add F] [Sub F] [Mul F] [Zero F] [One F] [Inv F] [DecidableEq F]
